@@ -8,6 +8,7 @@
 #include <osmium/util/delta.hpp>
 #include <random>
 #include <string>
+#include <vector>
 #include <cstdio>
 #include <unistd.h>
 
@@ -42,6 +43,49 @@ static int check_dense(const char* metadata, bool history, bool dense) {
     return rc;
 }
 
+// nodes with tags, including empty keys, empty values and empty user names, through dense and plain PBF
+static int check_tags(bool dense) {
+    std::string fn = tmpname(".osm.pbf");
+    struct T { const char* k; const char* v; };
+    const std::vector<std::vector<T>> tagsets = {{{"name", "A"}, {"", "odd"}, {"ref", "7"}}, {{"highway", "bus_stop"}, {"note", ""}}, {}, {{"", ""}}, {{"a", "b"}}};
+    osmium::memory::Buffer buf{4096, osmium::memory::Buffer::auto_grow::yes};
+    long long id = 10;
+    for (const auto& ts : tagsets) { { osmium::builder::NodeBuilder b{buf}; b.set_id(id++).set_version(1).set_changeset(1).set_uid(1).set_timestamp(osmium::Timestamp{uint32_t(1000)}); b.set_user(id % 2 ? "" : "u"); b.object().set_location(osmium::Location{1, 2});
+        if (!ts.empty()) { osmium::builder::TagListBuilder tl{b}; for (const auto& t : ts) tl.add_tag(t.k, t.v); } } buf.commit(); }
+    osmium::io::File f{fn}; f.set("pbf_dense_nodes", dense ? "true" : "false");
+    { osmium::io::Writer w{f, osmium::io::overwrite::allow}; w(std::move(buf)); w.close(); }
+    osmium::io::Reader r{fn}; size_t i = 0; int rc = 0;
+    while (auto b2 = r.read()) for (const auto& n : b2.select<osmium::Node>()) {
+        if (i >= tagsets.size()) { rc = 1; break; }
+        size_t k = 0; bool same = n.tags().size() == tagsets[i].size();
+        if (same) for (const auto& t : n.tags()) { if (std::string(t.key()) != tagsets[i][k].k || std::string(t.value()) != tagsets[i][k].v) same = false; ++k; }
+        if (!same) { std::printf("PBF round trip (%s nodes): node %zu comes back with %zu tags instead of %zu, or with different keys/values (tag keys and values may be empty strings)\nARGV: densetags\n", dense ? "dense" : "plain", i, n.tags().size(), tagsets[i].size()); rc = 1; }
+        ++i; }
+    r.close(); ::unlink(fn.c_str());
+    if (!rc && i != tagsets.size()) { std::printf("PBF round trip: %zu of %zu nodes read back\nARGV: densetags\n", i, tagsets.size()); rc = 1; }
+    return rc;
+}
+
+// blocks whose unbounded parts are large: many distinct long strings (ways), many tags per dense node. What is written must be readable again.
+static int check_blocksize(bool nodes) {
+    std::string fn = tmpname(".osm.pbf"); size_t written = 0;
+    { osmium::io::File f{fn}; osmium::io::Writer w{f, osmium::io::overwrite::allow};
+      osmium::memory::Buffer buf{1024 * 1024, osmium::memory::Buffer::auto_grow::yes};
+      for (int i = 1; i <= 8000; ++i) {
+        if (nodes) { osmium::builder::NodeBuilder b{buf}; b.set_id(i).set_version(1); b.set_user("u"); b.object().set_location(osmium::Location{1, 2});
+          osmium::builder::TagListBuilder tl{b}; for (int k = 0; k < 1200; ++k) tl.add_tag(("k" + std::to_string(k)).c_str(), "v"); }
+        else { osmium::builder::WayBuilder b{buf}; b.set_id(i).set_version(1); b.set_user("u");
+          osmium::builder::TagListBuilder tl{b}; for (int k = 0; k < 6; ++k) { std::string v(1000, char('a' + k)); v += std::to_string(i); tl.add_tag(("k" + std::to_string(k)).c_str(), v.c_str()); } }
+        buf.commit(); ++written;
+        if (buf.committed() > 512 * 1024) { w(std::move(buf)); buf = osmium::memory::Buffer{1024 * 1024, osmium::memory::Buffer::auto_grow::yes}; } }
+      w(std::move(buf)); w.close(); }
+    size_t got = 0; std::string err;
+    try { osmium::io::Reader r{fn}; while (auto b = r.read()) for (const auto& o : b.select<osmium::OSMObject>()) { (void)o; ++got; } r.close(); } catch (const std::exception& e) { err = e.what(); }
+    ::unlink(fn.c_str());
+    if (got != written || !err.empty()) { std::printf("PBF file with 8000 %s: %zu objects written, %zu read back %s%s\nARGV: blocksize\n", nodes ? "nodes carrying 1200 tags each" : "ways carrying six distinct 1000-byte tag values each", written, got, err.empty() ? "" : "- reader: ", err.c_str()); return 1; }
+    return 0;
+}
+
 template <typename TV, typename TD, typename RV> static int check_delta(std::mt19937_64& rng, const char* what, long long lo, long long hi) {
     osmium::util::DeltaEncode<TV, TD> e; osmium::util::DeltaDecode<RV, int64_t> d;
     for (int i = 0; i < 100000; ++i) { long long v = (rng() % 4 == 0) ? ((rng() % 2) ? lo : hi) : (lo + (long long)(rng() % (unsigned long long)(hi - lo + 1 > 0 ? hi - lo + 1 : 1000)));
@@ -52,12 +96,16 @@ template <typename TV, typename TD, typename RV> static int check_delta(std::mt1
 int main(int argc, char** argv) {
     std::string mode = argc > 1 ? argv[1] : "--search"; std::string only = argc > 3 ? argv[3] : ""; unsigned seed = argc > 2 ? unsigned(std::atoll(argv[2])) : 1; std::mt19937_64 rng(seed);
     if (mode == "box" && argc > 2) return check_box(int32_t(std::atoll(argv[2])), 5);
+    if (mode == "blocksize") return check_blocksize(false) || check_blocksize(true);
+    if (mode == "densetags") return check_tags(true) || check_tags(false);
     if (mode == "dense" && argc > 4) return check_dense(argv[2], std::atoi(argv[3]), std::atoi(argv[4]));
     bool all = only.empty();
     if (all || only.find("box") != std::string::npos) { for (int32_t x : {0, 1, -1, 1800000000, -1800000000, -1374389507, 999999999, 123456789}) if (check_box(x, 900000000)) return 1;
         for (int i = 0; i < 300; ++i) if (check_box(int32_t(rng() % 3600000001ULL) - 1800000000, int32_t(rng() % 1800000001ULL) - 900000000)) return 1; }
     if (all || only.find("Dense") != std::string::npos || only.find("serialize") != std::string::npos)
         for (const char* md : {"all", "none", "version", "version+timestamp", "uid+user", "changeset"}) for (int h = 0; h < 2; ++h) for (int dn = 0; dn < 2; ++dn) if (check_dense(md, h, dn)) return 1;
+    if (all || only.find("size") != std::string::npos || only.find("can_add") != std::string::npos) { if (check_blocksize(false) || check_blocksize(true)) return 1; }
+    if (all || only.find("add_node") != std::string::npos) { if (check_tags(true) || check_tags(false)) return 1; }
     if (all || only.find("delta") != std::string::npos) { if (check_delta<int64_t, int64_t, int64_t>(rng, "int64 ids", -(1LL << 62), (1LL << 62))) return 1; if (check_delta<uint32_t, int32_t, int64_t>(rng, "uid uint32/int32 -> int64", 0, 2147483647)) return 1; if (check_delta<uint32_t, int64_t, int64_t>(rng, "timestamp", 0, 4294967295LL)) return 1; }
     std::printf("search: no disagreement found\n"); return 0;
 }
